@@ -52,3 +52,39 @@ def opt1_shared_optional_payload(ctx):
                 ctx.ok('OPT-1', '%s|try_get-consumed-as-option' % b.name,
                        'payload read is consumed without unwrap', t.span.short() if t.span else None)
     ctx.require(n_reads >= 2, 'OPT-1: ColumnHandle::try_get has fewer than 2 readers (anchor)')
+
+
+# ------------------------------------------------------------------------------------ FLW-7
+def flw7_catalogue_lookups_on_query_path(ctx):
+    """A query may hold a partition the on-disk catalogue does not (yet / any longer) contain:
+    between Table::batch (partition published, LRU keys published) and persist_partitions, and for
+    partitions merged away by a compaction.  If one of its columns is not resident (evicted, cold),
+    the query asks the catalogue for the file; an indexing lookup panics the worker."""
+    from mirlib.cfg import CFG
+    ctx.rule('FLW-7', 'catalogue lookups reachable from a query (Partition::get_cols -> get_or_load -> '
+                      'Storage) never index-panic on a (table, partition) the catalogue lacks', floor=3)
+    P = ctx.P
+    root = P.one('mem_store::partition::Partition::get_cols')
+    reach = P.reachable_bodies([root])
+    scope = [P.body(n) for n in reach if n.startswith(('disk_store::meta_store::', 'disk_store::storage::'))]
+    scope = [b for b in scope if b is not None]
+    ctx.require(len(scope) >= 4, 'FLW-7: storage functions not reachable from Partition::get_cols (%d)' % len(scope))
+    ctx.extra.setdefault('scopes', {})['FLW-7'] = sorted(b.name for b in scope)
+    n = 0
+    for b in sorted(scope, key=lambda x: x.name):
+        du = DefUse(b)
+        cfg = CFG(b)
+        for ps in panics.panic_sources(b):
+            if ps.kind != 'index' or 'HashMap<' not in ps.what:
+                continue
+            n += 1
+            idiom = panics.guarded_by_len_or_check(b, du, cfg, ps)
+            ctx.check('FLW-7', '%s|%s' % (b.name, ps.what), bool(idiom),
+                      'catalogue map is indexed (`map[key]`) on the query path: a partition that is '
+                      'published but not yet in the catalogue (flush in progress) or already merged '
+                      'away, with an evicted / cold column, panics the worker; the query is '
+                      '"canceled" and later queries on that partition spin for ever', ps.where())
+    lookups = [1 for b in scope for blk, t in b.calls() if not blk.cleanup and
+               norm_callee(t.func).endswith('HashMap::get')]
+    ctx.ok('FLW-7', 'scope', '%d storage bodies on the query path, %d indexing lookups, %d get() lookups'
+           % (len(scope), n, len(lookups)))
